@@ -32,6 +32,7 @@ RULE = (
     "run: with opt-in the same documents do produce the events. Non-trivial = injected key at nesting "
     "depth >= 1, or environment and argument disagree, or path class other than 'inside'."
 )
+RULE += (" Template texts: for every public callable reachable from the template context (query / queries, rule, pipeline; public attributes, list items, dict values to depth 5; one per class and method) a template that calls it with the path of a Python file (and with no argument; thorough: two paths, source file) in a default-loaded pipeline, as post-processing template and as finalizer template: no process, network or exec-from-that-file event may occur, whatever the call returns or raises.")
 ASSUMPTIONS = [
     "capabilities are observed through CPython audit events (none of the anchored code uses a C "
     "extension that bypasses them)",
@@ -139,7 +140,127 @@ def build_doc(spec: dict, files: dict, src: str, root: str):
     return doc
 
 
+def _surface_objects():
+    from sigma.processing.pipeline import ProcessingPipeline
+    from sigma.rule import SigmaRule
+
+    pipeline = ProcessingPipeline.from_dict({
+        "name": "p", "priority": 10, "vars": {"v": "x"},
+        "transformations": [{"id": "t1", "type": "field_name_suffix", "suffix": "_s"}, {"type": "set_state", "key": "k", "val": "v"},
+                            {"type": "nest", "items": [{"type": "field_name_prefix", "prefix": "p_"}]}],
+        "postprocessing": [{"type": "template", "template": "{{ query }}"}, {"type": "embed", "prefix": "(", "suffix": ")"}],
+        "finalizers": [{"type": "template", "template": "{{ queries | join(',') }}"}, {"type": "nested", "finalizers": [{"type": "concat"}]}]})
+    rule = SigmaRule.from_dict({"title": "t", "id": "00000000-0000-4000-8000-000000000001", "tags": ["attack.t1"], "logsource": {"category": "c"},
+                                "detection": {"sel": {"f|contains": ["a", "b*"], "g": 1}, "condition": "sel"}})
+    pipeline.apply(rule)
+    return {"pipeline": pipeline, "rule": rule, "query": "q", "queries": ["q1", "q2"]}
+
+
+def surface_expressions(max_depth: int = 5, limit: int = 4000) -> list[str]:
+    """Every public callable reachable from the template context (query / queries, rule, pipeline)
+    through public attributes, list items and dict values, one expression per (class, method)."""
+    roots = _surface_objects()
+    seen_types: set = set()
+    seen_calls: set = set()
+    out: list[str] = []
+    queue = [(name, obj, 0) for name, obj in roots.items()]
+    while queue and len(out) < limit:
+        expr, obj, depth = queue.pop(0)
+        t = type(obj)
+        names = [n for n in dir(obj) if not n.startswith("_")]
+        for n in names:
+            try:
+                v = getattr(obj, n)
+            except Exception:  # noqa
+                continue
+            if callable(v):
+                key = (getattr(t, "__qualname__", str(t)), n)
+                if key not in seen_calls:
+                    seen_calls.add(key)
+                    out.append(f"{expr}.{n}")
+            elif depth < max_depth and not isinstance(v, (str, bytes, int, float, bool, type(None))):
+                if (type(v), n) not in seen_types or isinstance(v, (list, tuple, dict)):
+                    seen_types.add((type(v), n))
+                    queue.append((f"{expr}.{n}", v, depth + 1))
+        if isinstance(obj, (list, tuple)) and obj and depth < max_depth:
+            queue.append((f"{expr}[0]", obj[0], depth + 1))
+        elif isinstance(obj, dict) and depth < max_depth:
+            for k in list(obj)[:2]:
+                if isinstance(k, str) and k.isidentifier():
+                    queue.append((f"{expr}['{k}']", obj[k], depth + 1))
+    return out
+
+
+def check_surface_case(case: dict) -> Outcome:
+    """A template text that calls a public method reachable from its context with the path of a Python
+    file (then of the source file) as argument, in a pipeline loaded with default arguments."""
+    from sigma.backends.test import TextQueryTestBackend
+    from sigma.collection import SigmaCollection
+    from sigma.processing.pipeline import ProcessingPipeline
+
+    import warnings
+    warnings.simplefilter("ignore", RuntimeWarning)  # un-awaited coroutines of jinja's async methods
+    _install()
+    out = Outcome()
+    out.label("template-expression", "where:" + case["where"])
+    out.nontrivial = case["expr"].count(".") + case["expr"].count("[") >= 2
+    root, files, src = _scratch()
+    marker = os.path.join(root, "out", "marker.py")
+    with open(marker, "w") as f:
+        f.write("import os\nvars = {'pwned': 1}\n")
+    saved = {k: os.environ.pop(k, None) for k in ("PYSIGMA_ALLOW_EXTERNAL_SOURCES", "PYSIGMA_ALLOW_VARS_EXECUTION")}
+    try:
+        _WATCH.clear()
+        _WATCH.update({marker, os.path.realpath(marker), os.path.realpath(src)})
+        del _EVENTS[:]
+        tdict = "{'type': 'template', 'template': 'x', 'vars': %r, 'allow_template_vars': True, 'vars_allowed_paths': None}" % marker
+        args = {"path": repr(marker), "path2": f"{marker!r}, {marker!r}", "none": "", "src": repr(src),
+                # documents handed to the from_dict style constructors reachable from the context
+                "tdict": tdict,
+                "pdict": "{'postprocessing': [%s], 'finalizers': [%s], 'allow_template_vars': True}" % (tdict, tdict),
+                "tdict_kw": tdict + ", allow_template_vars=True",
+                "tdict_pos": tdict + ", True",
+                "tplain": "{'template': 'x', 'vars': %r, 'allow_template_vars': True}" % marker,
+                "pdict_kw": "{'postprocessing': [%s], 'finalizers': [%s]}, allow_template_vars=True" % (tdict, tdict),
+                "yaml_kw": "'postprocessing:\\n- type: template\\n  template: x\\n  vars: %s\\n', allow_template_vars=True" % marker,
+                "cmd_kw": "{'type': 'command_placeholders', 'cmd': 'true'}, allow_external_sources=True",
+                "file_kw": "{'type': 'file_placeholders', 'path': %r}, allow_external_sources=True" % src,
+                "http_kw": "{'type': 'http_placeholders', 'url': 'http://127.0.0.1:9/x', 'timeout': 1}, allow_external_sources=True"}[case["args"]]
+        text = "{{ " + case["expr"] + "(" + args + ") }}"
+        if case.get("chain"):
+            # second step on the returned object, e.g. apply a freshly built item to a freshly loaded rule
+            yrule = 'title: t\\nlogsource: {category: c}\\ndetection: {sel: {"f|expand": "%x%"}, condition: sel}'
+            text = "{{ " + case["expr"] + "(" + args + ")." + case["chain"].replace("RULE", "pipeline.from_dict({}).__class__" if False else "rule.from_yaml('" + yrule + "')") + " }}"
+        if case["where"] == "post":
+            doc = {"postprocessing": [{"type": "template", "template": text}]}
+        else:
+            doc = {"transformations": [{"type": "set_state", "key": "k", "val": "v"}], "finalizers": [{"type": "template", "template": text}]}
+        if case.get("chain"):
+            doc["transformations"] = [{"type": "set_state", "key": "k", "val": "v"}]
+        _ACTIVE[0] = True
+        try:
+            pipeline = ProcessingPipeline.from_dict(doc)
+            rule = SigmaCollection.from_dicts([{"title": "t", "logsource": {"category": "c"}, "detection": {"sel": {"f": "x"}, "condition": "sel"}}])
+            TextQueryTestBackend(pipeline).convert(rule)
+            out.label("rendered")
+        except Exception as e:  # noqa - the call may be refused by the sandbox or fail with any error; only its effects count
+            out.label("raised:" + type(e).__name__)
+        finally:
+            _ACTIVE[0] = False
+        caps = [e for e in _EVENTS if e[0] in ("process", "network", "exec") or (e[0] == "open" and case["args"] == "file_kw")]
+        if caps:
+            out.fail(f"C16:template-expression-capability:{caps[0][0]}:{case['expr'].rsplit('.', 1)[-1]}", f"template {text!r} in a default-loaded pipeline: events {caps[:3]}")
+    finally:
+        for k, v in saved.items():
+            if v is not None:
+                os.environ[k] = v
+        shutil.rmtree(root, ignore_errors=True)
+    return out
+
+
 def check_case(case: dict) -> Outcome:
+    if case.get("kind") == "template_expr":
+        return check_surface_case(case)
     import yaml
     from sigma.backends.test import TextQueryTestBackend
     from sigma.collection import SigmaCollection
@@ -295,3 +416,23 @@ def run(ctx) -> None:
             ctx.do({"kind": kind, "depth": 0, "inject": None, "inject_top": None, "optin_arg": True, "env": None,
                     "loader": "yaml", "path_class": "inside", "restrict": False})
     ctx.hyp(cases(), 1500 if ctx.tier == "quick" else 8000)
+    # template texts over the whole public surface reachable from the template context
+    if ctx.shard == 0:  # two-step attempts: build a gated item with the opt-in argument, then use it
+        for a in ("cmd_kw", "file_kw", "http_kw"):
+            for e in ("pipeline.items[0].from_dict",):
+                ctx.do({"kind": "template_expr", "where": "post", "expr": e, "args": a, "chain": "apply(RULE)"})
+    exprs = surface_expressions()
+    ctx.extra["template_surface"] = f"{len(exprs)} public callables reachable from the template context (depth <= 5)"
+    i = 0
+    for e in exprs:
+        for where in ("post", "final"):
+            root_name = e.split(".", 1)[0].split("[", 1)[0]
+            if (where == "post" and root_name == "queries") or (where == "final" and root_name in ("query", "rule")):
+                continue
+            arglist = ("path", "none") if ctx.tier == "quick" else ("path", "path2", "none", "src")
+            if "from_" in e.rsplit(".", 1)[-1] or e.rsplit(".", 1)[-1] in ("update", "replace"):
+                arglist = arglist + ("tdict", "pdict", "tdict_kw", "tdict_pos", "tplain", "pdict_kw", "yaml_kw")
+            for a in arglist:
+                i += 1
+                if i % ctx.nshards == ctx.shard:
+                    ctx.do({"kind": "template_expr", "where": where, "expr": e, "args": a})
